@@ -1953,25 +1953,27 @@ func ruleJSONNameConflicts(c *Ctx, rule string) {
 		return
 	}
 	n := 0
-	c.eachFam(m.fn, func(i ssa.Instruction) {
-		mu, ok := i.(*ssa.MapUpdate)
+	for _, fi := range c.familyInstrs(m.fn) {
+		mu, ok := fi.I.(*ssa.MapUpdate)
 		if !ok || !c.mentionsField(mu.Map, "Schema.Properties", 4) {
-			return
+			continue
 		}
+		// (in a helper that enters the property, the key is the helper's parameter: the argument at this call site)
+		key := upValue(mu.Key, fi.Path)
 		// keyed by the parsed JSON name of the field
 		fromName := false
-		for _, src := range append(traceSources(mu.Key), mu.Key) {
+		for _, src := range append(traceSources(key), key) {
 			if mentionsStructFieldNamed(src, "name", 3) {
 				fromName = true
 			}
 		}
 		if !fromName {
-			return
+			continue
 		}
 		n++
 		// (the skip of fields promoted from an overridden struct compares index paths too, but it is not about this name)
 		byDepth := false
-		for _, g := range controlGuards(mu) {
+		for _, g := range famControlGuards(fi) {
 			if isRangeCond(g.Cond) {
 				continue
 			}
@@ -1980,7 +1982,7 @@ func ruleJSONNameConflicts(c *Ctx, rule string) {
 			}
 		}
 		// where the depths of the two fields are compared directly, the entry may only happen when the holder is not shallower
-		for _, g := range controlGuards(mu) {
+		for _, g := range famControlGuards(fi) {
 			b, ok := g.Cond.(*ssa.BinOp)
 			if !ok {
 				continue
@@ -2005,7 +2007,7 @@ func ruleJSONNameConflicts(c *Ctx, rule string) {
 		}
 		ruleNameConflictScenarios(c, rule, m.fn, mu)
 		c.R.Check(byDepth, rule, "forType:properties[name]:dominant-field", c.pos(mu), "a JSON name that is already taken is resolved by the embedding depth of the two fields", "a field's schema is entered under its JSON name without looking whether the name is already taken and which of the two fields is shallower: for struct{ C int `json:\"c\"`; Inner } with Inner{ X string `json:\"c\"` } encoding/json emits the outer field, but the inferred property describes the inner one (the later field wins) and the name is listed twice in `required`")
-	})
+	}
 	c.R.Floor(rule, "entries of field schemas under their JSON name", n, 1)
 }
 
